@@ -63,8 +63,8 @@ func cmdKConfig(args []string) error {
 	for i := 0; i < dt.NumField(); i++ {
 		f := dt.Field(i)
 		tn := f.Type.Name()
-		if tn == "DateFormat" || tn == "GroundWaterFrom" || excluded[f.Name] {
-			continue // enumeration-typed keys are outside "numeric, text, on/off"
+		if excluded[f.Name] {
+			continue
 		}
 		var kind string
 		switch f.Type.Kind() {
@@ -72,6 +72,10 @@ func cmdKConfig(args []string) error {
 			kind = "float"
 		case reflect.Int:
 			kind = "int"
+			if tn == "DateFormat" || tn == "GroundWaterFrom" {
+				// named integer kinds: a number on the batch line, a name in the project file
+				kind = "enum"
+			}
 		case reflect.String:
 			kind = "text"
 		case reflect.Bool:
@@ -96,17 +100,28 @@ func cmdKConfig(args []string) error {
 			v := r.Intn(3000) - 100
 			text = strconv.Itoa(v)
 			return text, text, text
+		case "enum":
+			if k.name == "Dateformat" {
+				// the long formats only: the end date of the same configuration is parsed with it
+				v := []int{1, 3}[r.Intn(2)]
+				return strconv.Itoa(v), strconv.Itoa(v), "'" + map[int]string{1: "DateDElong", 3: "DateENlong"}[v] + "'"
+			}
+			v := r.Intn(3)
+			return strconv.Itoa(v), strconv.Itoa(v), "'" + []string{"polygonfile", "soilfile", "gwTimeSeries"}[v] + "'"
 		case "switch":
 			opts := [][2]string{{"1", "1"}, {"0", "0"}, {"on", "1"}, {"off", "0"}, {"yes", "1"}, {"no", "0"}, {"true", "1"}, {"false", "0"}}
 			o := opts[r.Intn(len(opts))]
 			return o[0], o[1], "'" + o[0] + "'"
 		default:
 			if k.name == "ResultFileExt" {
-				t := []string{"csv", "RES", "txt", "out"}[r.Intn(4)]
+				t := []string{"csv", "RES", "txt", "out", ""}[r.Intn(5)] // an empty value is a value too
 				return t, t, "'" + t + "'"
 			}
+			if k.name == "WeatherFolder" && r.Intn(4) == 0 {
+				return "", "", "''"
+			}
 			if k.name == "EndDate" { // parsed as a date (DDMMYYYY) when the configuration is read
-				t := fmt.Sprintf("%02d%02d%04d", 1+r.Intn(28), 1+r.Intn(12), 1950+r.Intn(120))
+				t := fmt.Sprintf("%02d%02d%04d", 1+r.Intn(12), 1+r.Intn(12), 1950+r.Intn(120)) // a date in both long formats
 				return t, t, "'" + t + "'"
 			}
 			t := fmt.Sprintf("t%dx", r.Intn(1000))
@@ -141,6 +156,21 @@ func cmdKConfig(args []string) error {
 				t, c, _ := randVal(r, k)
 				argVals[k.name] = t
 				argCanon[k.name] = c
+			}
+		}
+		// a configuration that changes the date format also gives its end date in a form both long formats read
+		// (the default end date is written for the default format)
+		_, dfF := fileVals["Dateformat"]
+		_, dfA := argVals["Dateformat"]
+		_, edF := fileVals["EndDate"]
+		_, edA := argVals["EndDate"]
+		if (dfF || dfA) && !edF && !edA {
+			for _, k := range keys {
+				if k.name == "EndDate" {
+					_, c, y := randVal(r, k)
+					fileVals[k.name] = c
+					yml.WriteString(k.yaml + ": " + y + "\n")
+				}
 			}
 		}
 		// keys that do not exist are ignored
